@@ -32,7 +32,7 @@ fn same_lines(out: &str, expected: &[String], final_newline: bool) -> bool {
 fn run(r: &mut Run) -> Result<(), MachineryError> {
     let t = r.tier;
     let alpha = [SP, TAB, L, NL, CRLF, NB, L, SHY];
-    let n = t.pick(6, 7);
+    let n = t.pick(7, 9);
     let space = Space { name: "C18/texts".into(), menu: menu(&alpha), max_len: n, desc: format!("texts of length <= {}", n) };
     r.space(space, |seq, cx| {
         let s = build(seq, &alpha);
